@@ -481,7 +481,73 @@ def _template_of_ctor(repo, mod, fn):
     raise AnalysisError("%s: `self.commands = [...]` not found" % fn.name)
 
 
+def _template_cells(ctx):
+    """each template predicate evaluated on the standard template and on every single deviation from it (another opcode at one position, a push
+    one byte shorter / longer or of the other standard length, an opcode where the push belongs and the reverse, one element more or less), and
+    each typed constructor evaluated to see that it builds exactly that template.  None when outside the evaluator's subset."""
+    from sa.cells import ClassRef, Evaluator, Obj, Raised, Undecided
+    tpl = {"p2pkh": ([0x76, 0xA9, None, 0x88, 0xAC], 20, "P2PKHScriptPubKey"), "p2sh": ([0xA9, None, 0x87], 20, "P2SHScriptPubKey"), "p2wpkh": ([0, None], 20, "P2WPKHScriptPubKey"),
+           "p2wsh": ([0, None], 32, "P2WSHScriptPubKey"), "p2tr": ([0x51, None], 32, "P2TRScriptPubKey")}
+    out = []
+    try:
+        for kind, (shape, ln, cls) in tpl.items():
+            spec = "script:Script.is_%s" % kind
+            mod, pfn = rl.get(ctx, spec)
+            good = [bytes([0x42]) * ln if x is None else x for x in shape]
+            variants = [(good, True, "the standard template")]
+            for i, x in enumerate(shape):
+                if x is None:
+                    for l2 in sorted({ln - 1, ln + 1, 20, 32, 0, 33} - {ln}):
+                        variants.append((good[:i] + [bytes([0x42]) * l2] + good[i + 1:], False, "a %d-byte push instead of %d bytes" % (l2, ln)))
+                    variants.append((good[:i] + [0x51] + good[i + 1:], False, "an opcode where the %d-byte push belongs" % ln))
+                else:
+                    for o2 in sorted({0x00, 0x51, 0x76, 0xA9, 0x87, 0x88, 0xAC, 0x61} - {x}):
+                        variants.append((good[:i] + [o2] + good[i + 1:], False, "opcode %#04x instead of %#04x at position %d" % (o2, x, i)))
+                    variants.append((good[:i] + [bytes([x]) if x else b""] + good[i + 1:], False, "a data element instead of opcode %#04x at position %d" % (x, i)))
+            variants.append((good + [0x61], False, "one more element"))
+            variants.append((good[:-1], False, "one element less"))
+            variants.append(([], False, "an empty script"))
+            bad = None
+            for cmds, want, label in variants:
+                ctx.count("cells")
+                me = Obj("script", "Script", {"commands": list(cmds)})
+                try:
+                    r = Evaluator(ctx.repo).call(spec, [], self_obj=me)
+                except Raised:
+                    r = False
+                if bool(r) != want:
+                    bad = label
+                    break
+            if bad is None:
+                out.append(ctx.ok(spec, "true exactly for the standard template (%d single deviations refused)" % (len(variants) - 1), pfn, mod, key="pred:" + kind))
+            else:
+                out.append(ctx.bad(spec, "is_%s answers %s for %s" % (kind, "no" if bad == "the standard template" else "yes", bad), pfn, mod, key="pred:" + kind))
+            cspec = "script:%s.__init__" % cls
+            _, cfn = rl.get(ctx, cspec)
+            h = bytes([0x37]) * ln
+            o = Obj("script", cls, {})
+            arg = h if kind != "p2tr" else Obj("pecc", "S256Point", {"xo": h})
+            try:
+                Evaluator(ctx.repo, method_hooks={("S256Point", "xonly"): lambda p_: p_.attrs["xo"]}).call(cspec, [arg], self_obj=o)
+                built = o.attrs.get("commands")
+            except Raised as x:
+                built = "raises %s" % x.name
+            want_cmds = [h if x is None else x for x in shape]
+            if built == want_cmds:
+                out.append(ctx.ok(cspec, "constructor builds the same template", cfn, mod, key="ctor:" + kind))
+            else:
+                out.append(ctx.bad(cspec, "constructor builds %s, the standard template is %s" % (
+                    [c.hex() if isinstance(c, bytes) else c for c in built] if isinstance(built, list) else built, [c.hex()[:8] + "…" if isinstance(c, bytes) else c for c in want_cmds]),
+                    cfn, mod, key="ctor:" + kind))
+    except Undecided:
+        return None
+    return out
+
+
 def c06_10(ctx):
+    ev = _template_cells(ctx)
+    if ev is not None:
+        return ev
     out = []
     want_len = {"p2pkh": 20, "p2sh": 20, "p2wpkh": 20, "p2wsh": 32, "p2tr": 32}
     spec_tpl = {"p2pkh": (5, {0: 0x76, 1: 0xA9, 3: 0x88, 4: 0xAC}, 2), "p2sh": (3, {0: 0xA9, 2: 0x87}, 1), "p2wpkh": (2, {0: 0}, 1), "p2wsh": (2, {0: 0}, 1), "p2tr": (2, {0: 0x51}, 1)}
